@@ -24,6 +24,5 @@ for tier in quick; do
   VERIF_REPO_SRC=$WT/src ./check $ID $tier > /tmp/confirm-$NAME.log 2>&1; rc=$?
   echo "check $ID $tier exit=$rc"; grep -E "^VIOLATION|^  signature=" /tmp/confirm-$NAME.log | head -6 | cut -c1-300; tail -1 /tmp/confirm-$NAME.log | cut -c1-200
 done
-git -C /verif checkout -q evidence/$ID.json 2>/dev/null
 git -C /repo worktree remove --force $WT
 rm -f /tmp/confirm-$NAME.log
